@@ -7,6 +7,7 @@ import QmcProofs.LawCluster
 import QmcProofs.LawTimestep
 import QmcProofs.LawTravOK
 import QmcProofs.LawTravPerm
+import QmcProofs.LawRandF
 
 /-!
 # Law — the law of the executable model IS the kernel of `KernelInvariance`
@@ -595,6 +596,51 @@ theorem isingStep_law_eq_timestepK_hb (s : Sampler.IsingSampler) (hv : s.spec.Va
   step_law_eq_kernels_components_hb s.spec.ham β hβ hW (fun b i => Refine.ising_w_nonneg s.spec hg b i i) _ L
     (s.spec.hamWF hv) (isingSpec_varsPos s.spec) s.frozenBond (ising_edgeNotFrozen s)
     (clusterSym_cfgSpace _ _ _ L (Composed.ising_bondSym s).sym (Composed.ising_bondSym s).const)
+
+/-! ### idealisation step for the heat-bath node `hbPick`: the `2^-52` grid of `gen_range(0.0..t)` -/
+
+/-- the rejection test `u·mw < w` passes on exactly `2^12·⌈(w/mw)·2^52⌉` of the `2^64` words -/
+theorem hbPick_accept_counting (mw w : Rat) (hmw : 0 < mw) (hw0 : 0 ≤ w) (hw1 : w ≤ mw) :
+    ((Finset.range RS.two64).filter (fun v => ((RS.ofScript [v]).genRangeF 1).1 * mw < w)).card =
+      2 ^ 12 * ⌈w / mw * ((2 ^ 52 : Nat) : Rat)⌉.toNat :=
+  hb_accept_count mw w hmw hw0 hw1
+
+/-- so its exact frequency lies in `[w/mw, w/mw + 2^-52)` (equal to `w/mw` for a dyadic ratio:
+`Qmc.Law.hb_accept_frequency_exact`) -/
+theorem hbPick_accept_frequency (mw w : Rat) (hmw : 0 < mw) (hw0 : 0 ≤ w) (hw1 : w ≤ mw) :
+    w / mw ≤ (((Finset.range RS.two64).filter
+        (fun v => ((RS.ofScript [v]).genRangeF 1).1 * mw < w)).card : Rat) / ((RS.two64 : Nat) : Rat) ∧
+    (((Finset.range RS.two64).filter
+        (fun v => ((RS.ofScript [v]).genRangeF 1).1 * mw < w)).card : Rat) / ((RS.two64 : Nat) : Rat) <
+      w / mw + 1 / ((2 ^ 52 : Nat) : Rat) :=
+  hb_accept_frequency mw w hmw hw0 hw1
+
+/-- the bond choice on a dyadic table: exact word counts -/
+theorem hbPick_pick_counting (ws : BW) (hnn : ∀ w ∈ ws, 0 ≤ w) (hW : 0 < ws.sum) (b : Nat) (hb : b < ws.length)
+    (kb kb1 : Nat) (h1 : (ws.take b).sum * ((2 ^ 52 : Nat) : Rat) = (kb : Rat) * ws.sum)
+    (h2 : (ws.take (b + 1)).sum * ((2 ^ 52 : Nat) : Rat) = (kb1 : Rat) * ws.sum) :
+    ((Finset.range RS.two64).filter
+      (fun v => indexForCumulative (cumul ws) ((RS.ofScript [v]).genRangeF ws.sum).1 = b)).card =
+      2 ^ 12 * (min (kb1 + 1) (2 ^ 52) - (if b = 0 then 0 else kb + 1)) :=
+  hb_pick_count ws hnn hW b hb kb kb1 h1 h2
+
+/-- … hence exactly `ws[b]/W` for an interior bond -/
+theorem hbPick_pick_frequency_interior (ws : BW) (hnn : ∀ w ∈ ws, 0 ≤ w) (hW : 0 < ws.sum) (b : Nat)
+    (hb : b < ws.length) (hb0 : b ≠ 0) (kb kb1 : Nat) (hk : kb1 < 2 ^ 52)
+    (h1 : (ws.take b).sum * ((2 ^ 52 : Nat) : Rat) = (kb : Rat) * ws.sum)
+    (h2 : (ws.take (b + 1)).sum * ((2 ^ 52 : Nat) : Rat) = (kb1 : Rat) * ws.sum) :
+    (((Finset.range RS.two64).filter
+      (fun v => indexForCumulative (cumul ws) ((RS.ofScript [v]).genRangeF ws.sum).1 = b)).card : Rat) /
+        ((RS.two64 : Nat) : Rat) = ws[b] / ws.sum :=
+  hb_pick_frequency_interior ws hnn hW b hb hb0 kb kb1 hk h1 h2
+
+/-- non-vacuity: the table `[1, 2, 1]` (`W = 4`): the middle bond is selected with frequency exactly `2/4` -/
+example : (((Finset.range RS.two64).filter
+      (fun v => indexForCumulative (cumul [1, 2, 1]) ((RS.ofScript [v]).genRangeF ([1, 2, 1] : BW).sum).1 = 1)).card :
+        Rat) / ((RS.two64 : Nat) : Rat) = ([1, 2, 1] : BW)[1] / ([1, 2, 1] : BW).sum := by
+  have h := hbPick_pick_frequency_interior [1, 2, 1] (by intro w hw; simp at hw; rcases hw with rfl | rfl | rfl <;> norm_num)
+    (by norm_num) 1 (by simp) (by norm_num) (2 ^ 50) (3 * 2 ^ 50) (by norm_num) (by norm_num) (by norm_num)
+  exact h
 
 
 end Qmc.LawThm
